@@ -83,6 +83,8 @@ class SpecEval:
 
     def cmp(self, op, a, b):
         E = self.eng
+        if isinstance(op, ast.In): return self.member(b, a)
+        if isinstance(op, ast.NotIn): return z3.Not(self.member(b, a))
         if isinstance(a.ty, SetVT) or isinstance(b.ty, SetVT):
             a = self.as_set(a); b = self.as_set(b)
             x = E.fresh("q", a.ty.elem.sort)
@@ -208,6 +210,11 @@ class SpecEval:
             if name == "obj":
                 o = self.term(n.args[0]); return SV(z3.If(Node.is_item(o.v), Node.obj(o.v), Node.oobj(o.v)), RefT("CellsImpl"))
             if name == "key": return SV(Node.key(self.term(n.args[0]).v), KEY)
+            if name == "rf": return SV(T.RNode.rf(self.term(n.args[0]).v), RNODE)
+            if name == "nd": return SV(T.RNode.nd(self.term(n.args[0]).v), RNODE)
+            if name == "is_nd": return SV(T.RNode.is_nd(self.term(n.args[0]).v), BOOL)
+            if name == "nd_of": return SV(T.RNode.nd_node(self.term(n.args[0]).v), NODE)
+            if name == "rf_of": return SV(T.RNode.rf_ref(self.term(n.args[0]).v), RefT("ReferenceImpl"))
             if name == "allocated":
                 o = self.term(n.args[0]); return SV(self.st.H("alloc", B)[o.v], BOOL)
             if name == "fresh":      # allocated during the call
@@ -303,7 +310,7 @@ class SpecEval:
             elif isinstance(it, ast.Call) and isinstance(it.func, ast.Name) and it.func.id == "every":
                 ty = parse_type(it.args[0].value)
                 x = self.eng.fresh(g.target.id, ty.sort); env[g.target.id] = SV(x, ty); bound.append(x)
-                if ty.sort == Ref: guards.append(x != NULL)
+                # no non-null guard: clauses quantified over every('C') also speak about the null object's (unused) fields
             else:
                 c = sub.term(it)
                 if isinstance(c.ty, SetVT) or isinstance(self.eng.content_type(c) if c.ty.sort == Ref else None, (SetT, DictT, GraphT)):
